@@ -255,7 +255,7 @@ CHECKS["C18"] = dict(
          "threads ended, blocks cached by a thread released when it ends. Race pass (clang -fsanitize=thread, free running, 20 repetitions per body): any report is a violation. Scenario library-calls: 12 GSL entry points interposed and modelled as non-atomic steps (mark argument storage in use, yield, then call); a second thread entering a call on storage in use (one side writing) and a changed process-wide error handler are violations. "
          "states/transitions = choice points executed, traces = complete executions",
     assumptions=["GSL is not instrumented", "at most 3 threads", "race freedom is decided by the happens-before detector of the free-running pass; the explorer enumerates interleavings at synchronisation / allocation granularity"],
-    runs=[run("c18", ["c18.cpp"], "asan", shards=7),
+    runs=[run("c18", ["c18.cpp"], "asan", shards=7, timeout={"quick": 3600, "thorough": 7200}),
           run("c18_tsan", [("c18.cpp", ["-DC18_FREE"])], "tsan", env={"TSAN_OPTIONS": "halt_on_error=0:exitcode=66:second_deadlock_stack=1"})],
 )
 NOT_APPLICABLE = {}
